@@ -394,6 +394,18 @@ def gen_coq(base, classes):
             aname, nf, "; ".join(b(x) for x in stl), b(copies), b(c["restore_binds"]), b(base["deep_read"]), b(base["solve_rebinds"]), b(base["pin_folder"])))
         names.append("cfg_%s" % aname)
     lines.append("Definition all_cfgs : list config := [%s]." % "; ".join(names))
+    # per class/mode: may the caller write into the arrays returned for an in-memory entry / an on-disk entry /
+    # by a copying getter (Result) without affecting stored iterations
+    table = {}
+    for (aname, cname, keys) in CONFIGS:
+        c = classes[cname]
+        reach_live = [k for i, k in enumerate(keys) if c["restore_binds"] and k not in c.get("restore_copy_keys", [])]
+        table[aname] = {"Get_results:inmem": bool(base["deep_read"]), "Set_Iter:inmem": bool(base["deep_read"]),
+                        "Get_results:disk": True, "Set_Iter:disk": True, "Result(iter=)": True,
+                        "Set_Iter:fields_whose_returned_array_is_the_live_field": reach_live}
+    base["_write_table"] = table
+    lines.append("Definition write_table : list (bool * bool * bool) := [%s]." % "; ".join(
+        "(%s, true, true)" % b(table[a]["Get_results:inmem"]) for (a, _, _) in CONFIGS))
     lines.append("Definition restores_mesh : bool := %s." % b(base["restores_mesh"]))
     lines.append("Definition get_results_stateless : bool := %s." % b(base["get_results_stateless"]))
     lines.append("Definition restores_unconditionally : bool := %s." % b(not any(classes[c]["guarded_restore"] for c in classes)))
@@ -770,6 +782,8 @@ def run(ctx):
     if base is not None:
         ctx.obligation("derive-flags", True, json.dumps(base))
         gen, cfgs = gen_coq(base, classes)
+        write_table = base.pop("_write_table")
+        ctx.cov["write_safety_table(store unchanged by a write into the returned array)"] = write_table
         open(os.path.join(ctx.build, "Gen_C15.v"), "w").write(gen)
         ctx.cov["derived_flags"] = base
         ctx.cov["stored_keys_per_algorithm"] = {c: {a: per_algo[c][a]["stored"] for a in accepted[c]} for c in ("Elastic", "Thermal", "HyperElastic", "WeakForms")}
@@ -878,7 +892,7 @@ def run(ctx):
     else:
         for c in cases:
             c["memdisk"] = True        # the same scenario once all in memory, once all on disk, on two simulations
-    probes = ["mesh_roundtrip", "phasefield_history", "inelastic_state", "algo_change", "init_shared", "save_then_folder_change", "phasefield_save"]
+    probes = ["write_origins", "mesh_roundtrip", "phasefield_history", "inelastic_state", "algo_change", "init_shared", "save_then_folder_change", "phasefield_save"]
     req = {"root": os.path.join(ctx.build, "scratch"), "cases": cases, "probes": probes}
     rc, out, err = ctx.impl_python(script, input=json.dumps(req), timeout=1500)
     if rc != 0:
@@ -1108,6 +1122,34 @@ def run(ctx):
         if "error" in P.get(p, {}):
             ctx.obligation("probe:" + p, False, P[p]["error"])
             probe_violation("probe-crash:" + p, p, None, "probe %s raised %s" % (p, P[p]["error"][:200]), "the probe runs")
+    pw = P.get("write_origins", {})
+    if base is not None and "observed" in pw:
+        bad = []
+        nprobe = 0
+        for aname, obs_ in pw["observed"].items():
+            for origin, o in obs_.items():
+                nprobe += 1
+                pred_safe = write_table[aname][origin]
+                if o["store_changed"] == pred_safe:   # changed although predicted safe, or unchanged although predicted unsafe
+                    bad.append((aname, origin, pred_safe, o))
+                pl = write_table[aname]["Set_Iter:fields_whose_returned_array_is_the_live_field"]
+                if origin.startswith("Set_Iter") and o["live_changed"] != (o["field"] in pl):
+                    bad.append((aname, origin + ":live", o["field"] in pl, o))
+        ctx.cov["write_origin_probes"] = nprobe
+        ctx.obligation("corr:write-safety-table", not bad, "%d probes (class x origin kind): observed store/live effect of an in-place write = the table derived from the source" % nprobe)
+        for (aname, origin, pred, o) in bad[:6]:
+            cls = aname.split("_")[0]
+            if origin.endswith(":live"):
+                key = "write-table-mismatch:%s:%s" % (cls, origin)
+                fi = False
+            elif pred:
+                key = "alias-backward:%s" % origin.replace("Result(iter=)", "Result")
+                fi = True
+            else:
+                key = "write-table-mismatch:%s:%s" % (cls, origin)
+                fi = False
+            ctx.violation(key, "%s: a write into the array returned by %s: store changed = %s, live changed = %s; the table derived from the source predicts store-safe = %s" % (aname, origin, o["store_changed"], o["live_changed"], pred),
+                          {"probe": {aname: {origin: o}}, "replay_py": REPLAY_PROBE % dict(verif=common.VERIF, req={"cases": [], "probes": ["write_origins"]}, probe="write_origins", sub=None, expected="no stored iteration changes when the caller writes into a returned array")}, found_input=fi)
     pm = P.get("mesh_roundtrip", {})
     if "violates" in pm:
         ctx.obligation("probe:mesh_roundtrip", not pm["violates"], json.dumps(pm))
